@@ -58,10 +58,16 @@ def _factory(_prefix=None):
     return None
 
 
-def _mk_event(m, name='alg'):
+def _factory2(_prefix=None):
+    return None
+
+
+def _mk_event(m, name='alg', fac=None):
     import dawgie
 
     impl = _Impl(name)
+    if fac is not None:
+        return dawgie.schedule(fac, impl, boot=True)
     if m.get('boot'):
         return dawgie.schedule(_factory, impl, boot=True)
     t = datetime.time(*m['time'])
@@ -147,14 +153,20 @@ def exec_delay(case):
                          'a boot event already handed out is due again')
             except sched._DelayNotKnowableError:
                 pass
-            try:
-                other = sched._delay(_mk_event(m, 'other')).total_seconds()
-                if other != 0:
-                    out.fail('delay/boot-not-immediate', f'{other}')
-            except sched._DelayNotKnowableError:
-                out.fail('boot/not-fired-at-boot',
-                         'the boot event of a second algorithm is taken for '
-                         'the one already handed out')
+            for what, other in (
+                ('another algorithm of the same factory',
+                 _mk_event(m, 'other')),
+                ('an algorithm of the same name from another factory',
+                 _mk_event(m, 'alg', _factory2)),
+            ):
+                try:
+                    d2 = sched._delay(other).total_seconds()
+                    if d2 != 0:
+                        out.fail('delay/boot-not-immediate', f'{d2}')
+                except sched._DelayNotKnowableError:
+                    out.fail('boot/not-fired-at-boot',
+                             f'the boot event of {what} is taken for the one '
+                             'already handed out')
             out.nontrivial = True
             return out
         t = datetime.time(*m['time'])
@@ -454,6 +466,18 @@ def _histories(draw):
         i = draw(st.integers(0, len(spec['algs']) - 1))
         spec['algs'][i]['events'] = draw(
             st.lists(engines._moment, min_size=1, max_size=2))
+    if draw(st.integers(0, 2)) == 0:
+        # a family of boot events, preferably on namesakes in other packages
+        idx = draw(st.lists(st.integers(0, len(spec['algs']) - 1),
+                            unique=True, min_size=1, max_size=3))
+        first = spec['algs'][idx[0]]
+        for i in idx:
+            a = spec['algs'][i]
+            if {'boot': True} not in a['events']:
+                a['events'] = a['events'] + [{'boot': True}]
+            taken = {b['name'] for b in spec['algs'] if b['pkg'] == a['pkg']}
+            if a is not first and first['name'] not in taken:
+                a['name'] = first['name']
     if spec['style'] == 'registry':
         for pi in {a['pkg'] for a in spec['algs'] if a['events']}:
             if 'events' not in spec['placeholders'][pi]:
